@@ -23,6 +23,14 @@ def showInts (l : List Int) : String := commaJoin (l.map toString)
 
 def showBool (o : Outcome Bool) : String := showOut (o.map fun b => if b then "true" else "false")
 
+def showPair (o : Outcome (Int × Int)) : String := showOut (o.map fun p => s!"{p.1},{p.2}")
+def showOptInt (o : Option Int) : String := match o with | some v => toString v | none => "ERR"
+
+def parseTile (s : String) : Option Tile :=
+  match (s.splitOn "/").map String.toInt? with
+  | [some h, some x, some y, some v, some z] => newTile h x y v z
+  | _ => none
+
 def dispatch (op : String) (a : List String) : Option String :=
   match op, a with
   | "shift", [id, dx, dy, dv] => some (shift id (int! dx) (int! dy) (int! dv))
@@ -35,6 +43,21 @@ def dispatch (op : String) (a : List String) : Option String :=
     some (match parseExt id with
       | some e => showInts [e.h, e.x, e.y, e.v, e.f] ++ ";" ++ e.id
       | none => "ERR")
+  | "mrgExt", [ids, h, v] => some (showSet (mergeExt (commaSplit ids) (int! h) (int! v)))
+  | "mrgSp", [ids, z] => some (showSet (mergeSp (commaSplit ids) (int! z)))
+  | "z2k", [f, zi, zo, e, o] => some (showPair (z2k (int! f) (int! zi) (int! zo) (int! e) (int! o)))
+  | "k2z", [k, zk, zo, e, o] => some (showPair (k2z (int! k) (int! zk) (int! zo) (int! e) (int! o)))
+  | "z2kmin", [f, zi, zo, e, o] => some (showOptInt (zToMinKey (int! f) (int! zi) (int! zo) (int! e) (int! o)))
+  | "z2kmax", [f, zi, zo, e, o] => some (showOptInt (zToMaxKey (int! f) (int! zi) (int! zo) (int! e) (int! o)))
+  | "validx", [i, z, neg] => some (if validateIndex (int! i) (int! z) (neg == "true") then "true" else "false")
+  | "tile2ext", [ts, e, o, v] =>
+    some (match (commaSplit ts).mapM parseTile with
+      | none => "ERR"
+      | some tl => showSet ((tilesToExt tl (int! e) (int! o) (int! v)).map fun l => l.map Ext.id))
+  | "tile2sp", [ts, e, o, v] =>
+    some (match (commaSplit ts).mapM parseTile with
+      | none => "ERR"
+      | some tl => showSet ((tilesToSp tl (int! e) (int! o) (int! v)).map fun l => l.map Ext.spId))
   | "ovE", [a, b] => some (showBool (overlapExt a b))
   | "ovEA", [a, b] => some (showBool (overlapExtArr (commaSplit a) (commaSplit b)))
   | "ovS", [a, b] => some (showBool (overlapSp a b))
